@@ -72,6 +72,8 @@ class Family:
         self.types = []  # emitted rust items, in order
         self.value_enums = {}
         self.counter = 0
+        # extras families (appended after the original corpus, own RNG): attribute combinations added later
+        self.extras = False
 
     def fresh_words(self):
         if self.rng.random() < 0.3 and self.singles:
@@ -113,6 +115,14 @@ def value_enum(fam, rng):
     if rng.random() < 0.3:
         words = [pool.pop()]
         variants.append({"rust": "Sk" + words[0].capitalize(), "words": ["sk", words[0]], "name": None, "aliases": [], "skipped": True})
+    if fam.extras:
+        # several alias sources on one variant: `alias = .., aliases = [..]` and two `aliases` lists
+        for i, v in enumerate(variants[:2]):
+            if v["skipped"]:
+                continue
+            while len(v["aliases"]) < 3:
+                v["aliases"].append("x" + pool.pop() + str(len(v["aliases"])))
+            v["alias_decl"] = "mixed" if i == 0 else "two-lists"
     e = {"rust": name, "style": style, "variants": variants}
     for v in variants:
         v["final"] = v["name"] if v["name"] is not None else cased(v["words"], style or "kebab-case", v["rust"])
@@ -125,7 +135,7 @@ SHAPES_OPT = ["bool", "count", "req", "opt", "optopt", "vec", "optvec", "vecvec"
 SHAPES_POS = ["req", "opt", "default", "vec", "optvec"]
 
 
-def make_arg(fam, rng, shape, val, where, style):
+def make_arg(fam, rng, shape, val, where, style, f_extra=None):
     """where: 'long' | 'short' | 'both' | 'pos'"""
     words = fam.fresh_words()
     ident = "_".join(words)
@@ -193,6 +203,22 @@ def make_arg(fam, rng, shape, val, where, style):
             v = rng.choice([v for v in e["variants"] if not v["skipped"]])
             f["default"] = [v["rust"]]
             attrs.append("default_value_t = %s::%s" % (val, v["rust"]))
+    if shape == "cond":
+        # a plain `T` whose only default is conditional: still required unless the condition holds
+        other, trigger = f_extra["cond_on"]
+        if val == "str":
+            d = "cd"
+            lit = rs_str(d)
+        elif val == "i64":
+            d = 5
+            lit = rs_str("5")
+        else:
+            e = fam.value_enums[val]
+            v = [v for v in e["variants"] if not v["skipped"]][0]
+            d = v["rust"]
+            lit = rs_str(v["final"])
+        f["cond"] = (other, trigger, d)
+        attrs.append("default_value_if(%s, %s, %s)" % (rs_str(other), rs_str(trigger), lit))
     if shape == "optopt" and rng.random() < 0.5:
         f["require_equals"] = True
         attrs.append("require_equals = true")
@@ -231,6 +257,7 @@ def rust_type(f):
         return "u8"
     return {
         "req": "%s",
+        "cond": "%s",
         "default": "%s",
         "opt": "Option<%s>",
         "optopt": "Option<Option<%s>>",
@@ -399,6 +426,40 @@ def random_family(idx, rng):
     return fam
 
 
+def extras_family(idx, rng):
+    """conditional defaults on plain `T` fields, several alias sources on value-enum variants"""
+    fam = Family(idx, rng)
+    fam.extras = True
+    enums = [value_enum(fam, rng)]
+    style = "kebab-case"
+
+    def cond_fields(n_cond):
+        trig = make_arg(fam, rng, "opt", "str", "long", style)
+        fields = [trig]
+        for _ in range(n_cond):
+            val = rng.choice(["str", "i64", enums[0]["rust"]])
+            fields.append(make_arg(fam, rng, "cond", val, rng.choice(["long", "both"]), style, f_extra={"cond_on": (trig["id"], "v")}))
+        for _ in range(rng.randint(0, 2)):
+            shape = rng.choice(["bool", "count", "opt", "vec", "default"])
+            val = "str" if shape in ("bool", "count") else rng.choice(["str", "i64", enums[0]["rust"]])
+            fields.append(make_arg(fam, rng, shape, val, "long", style))
+        rng.shuffle(fields)
+        return fields
+
+    if rng.random() < 0.5:
+        st = {"rust": fam.fresh_type("S"), "derive": "Parser", "style": None, "fields": cond_fields(rng.randint(1, 2)), "sub": None}
+    else:
+        child = {"rust": fam.fresh_type("S"), "derive": "Args", "style": None, "fields": cond_fields(1), "sub": None}
+        fam.types.append(("struct", child))
+        top_fields = [make_arg(fam, rng, rng.choice(["bool", "opt"]), "str", "long", style)]
+        top_fields.append({"kind": "flatten", "ident": "_".join(fam.fresh_words()), "inner": child, "optional": False})
+        top_fields.append(make_arg(fam, rng, "req", enums[0]["rust"], "long", style))
+        st = {"rust": fam.fresh_type("S"), "derive": "Parser", "style": None, "fields": top_fields, "sub": None}
+    fam.types.append(("struct", st))
+    fam.top = ("struct", st)
+    return fam
+
+
 # --------------------------------------------------------------------------
 # emitters
 
@@ -414,7 +475,14 @@ def emit_value_enum(e, out):
             attrs.append("skip")
         if v["name"] is not None:
             attrs.append("name = %s" % rs_str(v["name"]))
-        if len(v["aliases"]) == 1:
+        decl = v.get("alias_decl")
+        if decl == "mixed":
+            attrs.append("alias = %s" % rs_str(v["aliases"][0]))
+            attrs.append("aliases = [%s]" % ", ".join(rs_str(a) for a in v["aliases"][1:]))
+        elif decl == "two-lists":
+            attrs.append("aliases = [%s]" % rs_str(v["aliases"][0]))
+            attrs.append("aliases = [%s]" % ", ".join(rs_str(a) for a in v["aliases"][1:]))
+        elif len(v["aliases"]) == 1:
             attrs.append("alias = %s" % rs_str(v["aliases"][0]))
         elif len(v["aliases"]) > 1:
             attrs.append("aliases = [%s]" % ", ".join(rs_str(a) for a in v["aliases"]))
@@ -486,6 +554,7 @@ def field_desc(f):
             "bool": "Bool",
             "count": "Count",
             "req": "Req",
+            "cond": "Req",
             "default": "Req",
             "opt": "Opt",
             "optopt": "OptOpt",
@@ -681,6 +750,7 @@ def main():
     ap.add_argument("--module-doc", default="committed corpus")
     ap.add_argument("--start", type=int, default=0, help="index of the first family (type name prefix T<idx>)")
     ap.add_argument("--no-systematic", action="store_true")
+    ap.add_argument("--extras", type=int, default=16, help="families with conditional defaults / mixed alias declarations")
     a = ap.parse_args()
     rng = random.Random(a.seed)
     fams = []
@@ -699,8 +769,13 @@ def main():
     for _ in range(a.random):
         fams.append(random_family(idx, rng))
         idx += 1
+    # appended later, with an RNG of their own so that the families above stay byte-identical
+    rng2 = random.Random(a.seed * 7919 + 17)
+    for _ in range(a.extras):
+        fams.append(extras_family(idx, rng2))
+        idx += 1
     out = []
-    out.append("// @generated by gen_corpus.py --seed %d --random %d (%s). Do not edit." % (a.seed, a.random, a.module_doc))
+    out.append("// @generated by gen_corpus.py --seed %d --random %d --extras %d (%s). Do not edit." % (a.seed, a.random, a.extras, a.module_doc))
     out.append("#![allow(non_snake_case, non_camel_case_types, dead_code, clippy::all)]")
     out.append("use crate::desc::*;")
     out.append("use crate::obs::*;")
